@@ -90,14 +90,14 @@ class Segment(NamedTuple):
         if style is not None:
             apply = style.__add__
             segments = (
-                cls(text, None if is_control else apply(_style), is_control)
+                cls(text, _style if is_control else apply(_style), is_control)
                 for text, _style, is_control in segments
             )
         if post_style is not None:
             segments = (
                 cls(
                     text,
-                    None
+                    _style
                     if is_control
                     else (_style + post_style if _style else post_style),
                     is_control,
